@@ -253,6 +253,24 @@ where
     }
 }
 
+/// Converts an error returned by the chain into the contract's error type.
+///
+/// An error of the contract's own type is returned as it is, an [StdError] is converted
+/// with `From`, and any other error (e.g. one raised by the chain itself) is returned as
+/// a generic [StdError].
+pub fn downcast_error<Error>(err: anyhow::Error) -> Error
+where
+    Error: From<StdError> + Debug + Display + Send + Sync + 'static,
+{
+    if err.is::<Error>() {
+        err.downcast::<Error>().unwrap()
+    } else if err.is::<StdError>() {
+        err.downcast::<StdError>().unwrap().into()
+    } else {
+        StdError::generic_err(err.to_string()).into()
+    }
+}
+
 /// Intermiediate proxy to set additional information
 /// before sending an execute message.
 #[must_use]
@@ -330,7 +348,7 @@ where
 impl<'a, 'app, Error, Msg, MtApp, ExecC> MigrateProxy<'a, 'app, Error, Msg, MtApp, ExecC>
 where
     Msg: Serialize + Debug,
-    Error: Debug + Display + Send + Sync + 'static,
+    Error: From<StdError> + Debug + Display + Send + Sync + 'static,
     ExecC: cosmwasm_std::CustomMsg + 'static,
     MtApp: Executor<ExecC>,
 {
@@ -358,7 +376,7 @@ where
                 &self.msg,
                 new_code_id,
             )
-            .map_err(|err| err.downcast().unwrap())
+            .map_err(downcast_error)
     }
 }
 
